@@ -58,6 +58,7 @@ PROPS["C03"] = {
         I("c03::c03_resolve_sr_u32", bounds="precedences symbolic; u32 storage"),
         I("c03::c03_resolve_sr_any", bounds="all 3 token and 3 production precedences, the conflicting token, "
           "production and table cell symbolic"),
+        I("c03::c03_resolve_sr_history", bounds="as _any, with two free triples already in the conflict list"),
         I("c03::c03_encode_u8", bounds="all u8 indices"),
         I("c03::c03_encode_u16", bounds="all u16 indices"),
         I("c03::c03_encode_u32", bounds="all u32 indices"),
@@ -311,23 +312,29 @@ PROPS["C12"] = {
 }
 
 PROPS["C10"] = {
-    "functions_encoded": ["cfgrammar::yacc::parser::YaccParser::{new, parse_ws, mk_error}"],
+    "functions_encoded": ["cfgrammar::yacc::parser::YaccParser::{new, parse_ws, parse_string, parse_action, parse_to_eol, "
+                          "parse_to_single_colon, parse_int, lookahead_is, mk_error}"],
     "bounds": {
         "quick": "texts of a concrete prefix (none, '/*', '/**', '//') followed by 2..3 characters, each a free choice "
                  "from {space, LF, '/', '*', 'a'} (3-character instance also tab and CR) or a fixed 3-byte "
-                 "character; start offset a free character boundary; newline flag free; unwind = bytes + 2",
-        "thorough": "as quick plus 4 free characters after the prefix and 5 free characters without prefix",
+                 "character; start offset a free character boundary; newline flag free; unwind = bytes + 2. Returned text of "
+                 "parse_string / parse_action / parse_to_eol / parse_to_single_colon: a concrete opener (a quote, '{', or "
+                 "none) followed by 3-4 characters, each a free choice from the scanner's alphabet or a fixed 2-/3-byte "
+                 "character",
+        "thorough": "as quick plus 4 free characters after the prefix and 5 free characters without prefix; returned "
+                    "text on 5 free characters",
     },
     "outside_claim": [
-        "everything in C10 except the layout clause: names, tokens, declarations, precedences, numbering, spans "
-        "(regex + string-keyed IndexMap/HashMap, DESIGN 5)",
-        "layout longer than the instance sizes",
+        "everything in C10 except the layout clause and the text returned by the four string-producing scanners: names, "
+        "tokens, declarations, precedences, numbering, spans (regex + string-keyed IndexMap/HashMap, DESIGN 5)",
+        "layout / strings / actions longer than the instance sizes; stripping of non-ASCII white space",
     ],
     "stubs": _STUBS,
     "assumptions": [
         "reference skipper written from the Yacc lexical conventions (blanks; newlines iff allowed; // to end of "
         "line; /* to the next */; a lone / ends the skip)",
-        "trusted: Kani MIR->goto translation, CBMC, CaDiCaL, hook yacc::parser::verif::parse_ws",
+        "reference string / action / line / colon-field scanners written on bytes from the lexical conventions (DESIGN 4, C10)",
+        "trusted: Kani MIR->goto translation, CBMC, CaDiCaL, hooks yacc::parser::verif::{parse_ws_newlines, parse_*_text}",
     ],
     "instances": [
         I("c12::c10_ws_f1", bounds="1 free char over 7-letter alphabet (small instance)", termination=_SCANNERS),
@@ -348,8 +355,30 @@ PROPS["C10"] = {
         I("c12::c10_ws_f4", "thorough", bounds="4 free chars", termination=_SCANNERS, est_gb=10, mem_gb=16),
         I("c12::c10_ws_block4", "thorough", bounds="'/*' + 4 free chars", termination=_SCANNERS, est_gb=10, mem_gb=16),
         I("c12::c10_ws_f5", "thorough", bounds="5 free chars", termination=_SCANNERS, est_gb=10, mem_gb=16),
+        # the text the scanners return (c10txt.rs): offset and every byte of the text vs a byte reference
+        I("c10txt::c10_str_q3", bounds="parse_string: a single quote + 3 free chars over {', \", \\, LF, a, b}", termination=_SCANNERS),
+        I("c10txt::c10_str_d3", bounds="parse_string: a double quote + 3 free chars", termination=_SCANNERS),
+        I("c10txt::c10_str_f3", bounds="parse_string: 3 free chars, free start", termination=_SCANNERS),
+        I("c10txt::c10_str_qmb", bounds="parse_string: a double quote + widths [1,2,1,1]", termination=_SCANNERS),
+        I("c10txt::c10_str_q4", "thorough", bounds="parse_string: a single quote + 4 free chars", termination=_SCANNERS),
+        I("c10txt::c10_str_q5", "thorough", bounds="parse_string: a single quote + 5 free chars", termination=_SCANNERS, mem_gb=16),
+        I("c10txt::c10_act_b3", bounds="parse_action: '{' + 3 free chars over {'{', '}', LF, a, space, b}", termination=_SCANNERS),
+        I("c10txt::c10_act_b4", bounds="parse_action: '{' + 4 free chars", termination=_SCANNERS),
+        I("c10txt::c10_act_mb", bounds="parse_action: '{' + widths [1,3,1,1]", termination=_SCANNERS),
+        I("c10txt::c10_act_b5", "thorough", bounds="parse_action: '{' + 5 free chars", termination=_SCANNERS, mem_gb=16),
+        I("c10txt::c10_eol_f3", bounds="parse_to_eol: 3 free chars over {a, LF, CR, b}, free start", termination=_SCANNERS),
+        I("c10txt::c10_eol_mb", bounds="parse_to_eol: widths [1,2,1,1], free start", termination=_SCANNERS),
+        I("c10txt::c10_eol_f5", "thorough", bounds="parse_to_eol: 5 free chars, free start", termination=_SCANNERS),
+        I("c10txt::c10_col_f3", bounds="parse_to_single_colon: 3 free chars over {':', a, LF, space, b}, free start", termination=_SCANNERS),
+        I("c10txt::c10_col_f4", bounds="parse_to_single_colon: 4 free chars, free start", termination=_SCANNERS),
+        I("c10txt::c10_col_mb", bounds="parse_to_single_colon: widths [1,3,1,1], free start", termination=_SCANNERS),
+        I("c10txt::c10_col_f5", "thorough", bounds="parse_to_single_colon: 5 free chars, free start", termination=_SCANNERS, mem_gb=16),
+        I("c10txt::c10_int_f3", bounds="parse_int: 3 free chars over {0, 9, 5, a, space}, free start; value vs reference", termination=_SCANNERS),
+        I("c10txt::c10_int_mb", bounds="parse_int: widths [1,2,1,1] (2-byte char = ARABIC-INDIC DIGIT), free start", termination=_SCANNERS),
+        I("c10txt::c10_int_f5", "thorough", bounds="parse_int: 5 free chars, free start", termination=_SCANNERS),
+        I("c10txt::c10_txt_witness", bounds="reachability twin (a quote + 2 free chars)", expect_fail=True),
     ],
-    "jobs": {"quick": 8, "thorough": 9},
+    "jobs": {"quick": 14, "thorough": 12},
 }
 
 
